@@ -24,10 +24,85 @@ theorem sshIdent_eq (p : Bytes) : sshIdent p = C18.sshLang p := by
       | _ => false) = C18.verTail (p.drop 4) := C18.span_verTail _
   rw [key]
 
-theorem http_head_not_ssh (rest : Bytes) : classify (C12.httpHead ++ rest) ≠ .ssh := by
-  intro hc
-  have := classify_ssh_imp _ hc
-  simp [C12.httpHead, sshMagic, List.isPrefixOf] at this
+/-- not starting with "SSH-": not an identification string -/
+theorem sshIdent_of_not_magic {r : Bytes} (h : sshMagic.isPrefixOf r = false) : sshIdent r = false := by
+  rw [sshIdent_eq]; unfold C18.sshLang; rw [h]; rfl
+
+/-- four arbitrary bytes followed by a zero byte (an ONC-RPC reply: xid, then message type `00 00 00 01`): not an
+    identification string, even when the xid spells "SSH-" — the version field cannot contain 0x00 -/
+theorem sshIdent_xid_zero (x0 x1 x2 x3 : UInt8) (t : Bytes) : sshIdent (x0 :: x1 :: x2 :: x3 :: 0 :: t) = false := by
+  rw [sshIdent_eq]; unfold C18.sshLang
+  have : C18.verTail ((x0 :: x1 :: x2 :: x3 :: 0 :: t).drop 4) = false := by
+    simp [C18.verTail, C18.verCh, isDigit]
+  rw [this, Bool.and_false]
+
+/-- the banner of the SSH responder is a complete identification string -/
+theorem sshIdent_banner : sshIdent sshBannerExpected = true := by decide +kernel
+
+/-- no handler but the SSH one produces a complete SSH identification string, whatever the payload and the
+    control block — no fact about the matcher (in particular not the shadow set K2) is used -/
+theorem handle_not_banner {cfg : Cfg} {env : Env} {i : Nat} {ci ci' : ClientInfo} {tcb tcb' : Option Tcb} {p r : Bytes}
+    (hi : i ≠ ID_SSH) (h : protoHandle cfg env i ci tcb p = .ok (ci', tcb', some r)) : sshIdent r = false := by
+  rcases C12.protoHandle_reply h with ⟨_, hr⟩ | ⟨_, hr⟩ | ⟨e, _⟩ | ⟨_, hr⟩ | ⟨_, hr⟩ | ⟨_, hr⟩ | ⟨_, hr⟩ | ⟨_, hr⟩
+  · obtain ⟨rest, rfl⟩ := C12.http_shape hr
+    exact sshIdent_of_not_magic (by simp [C12.httpHead, sshMagic, List.isPrefixOf])
+  · obtain ⟨tid, ip, port, _, rfl⟩ := C12.stun_shape hr
+    exact sshIdent_of_not_magic (by simp [sshMagic, List.isPrefixOf])
+  · exact absurd e hi
+  · rw [hr]; decide +kernel
+  · obtain ⟨m0, m1, m2, m3, x0, x1, x2, x3, x, t, hm, rfl⟩ := C12.rpc_tcp_shape hr
+    apply sshIdent_of_not_magic
+    simp only [sshMagic, List.cons_append, List.isPrefixOf, Bool.and_eq_false_iff, beq_eq_false_iff_ne, ne_eq]
+    left; rintro rfl; revert hm; decide
+  · obtain ⟨x0, x1, x2, x3, x, t, rfl⟩ := C12.rpc_udp_shape hr
+    exact sshIdent_xid_zero x0 x1 x2 x3 _
+  · obtain ⟨l2, l3, cmd, rest, _, _, rfl⟩ := C12.smb1_shape hr
+    exact sshIdent_of_not_magic (by simp [sshMagic, List.isPrefixOf])
+  · obtain ⟨l2, l3, c0, c1, rest, _, rfl⟩ := C12.smb2_shape hr
+    exact sshIdent_of_not_magic (by simp [sshMagic, List.isPrefixOf])
+
+/-- **origin of a banner-shaped reply on a fresh flow**: a reply of the model that is a complete SSH
+    identification string comes from the SSH responder on a payload identified as SSH -/
+theorem reply_banner_cases {cfg : Cfg} {env : Env} {ci ci' : ClientInfo} {tcb tcb' : Option Tcb} {p r : Bytes}
+    (ht : FreshTcb tcb) (h : protoRepl cfg env ci tcb p = .ok (ci', tcb', some r)) :
+    (refStreamK2 p = some ID_SSH ∧ sshRepl p = .ok (some r)) ∨ sshIdent r = false := by
+  by_cases hg : Gate ci
+  · rcases ht with rfl | rfl
+    · rw [model_none cfg env ci p hg] at h
+      cases hid : refDatagramK2 p with
+      | none =>
+        rw [hid] at h
+        simp only at h
+        cases hm : dnsParse p with
+        | none => rw [hm] at h; cases h
+        | some m =>
+          rw [hm] at h
+          simp only [Option.bind_some] at h
+          cases hr : dnsRepl ci m with
+          | none => rw [hr] at h; cases h
+          | some r' =>
+            rw [hr] at h
+            simp only [Except.ok.injEq, Prod.mk.injEq, Option.some.injEq] at h
+            exact .inr (sshIdent_of_not_magic (dns_notSH ⟨ci, p, m, hm, by rw [hr, h.2.2]⟩).1)
+      | some i =>
+        rw [hid] at h
+        simp only at h
+        by_cases hi : i = ID_SSH
+        · subst hi
+          exact .inl ⟨k2_stream_of_datagram p _ hid (by decide) (by decide) (by decide), (ssh_arm h).1⟩
+        · exact .inr (handle_not_banner hi h)
+    · obtain ⟨st, hst⟩ := model_fresh cfg env ci p hg
+      rw [hst] at h
+      cases hid : refStreamK2 p with
+      | none => rw [hid] at h; cases h
+      | some i =>
+        rw [hid] at h
+        simp only at h
+        by_cases hi : i = ID_SSH
+        · subst hi; exact .inl ⟨rfl, (ssh_arm h).1⟩
+        · exact .inr (handle_not_banner hi h)
+  · rw [model_gate cfg env ci tcb p hg] at h
+    cases h
 
 /-! ### C13 -/
 
@@ -52,6 +127,42 @@ theorem http_class_origin {cfg : Cfg} {env : Env} {ci ci' : ClientInfo} {tcb tcb
     rw [this] at hc
     revert hc; decide +kernel
   · exact absurd hc (notSH_classify hn).2
+
+/-- a handler of a known protocol hands the control block back with the same protocol id -/
+theorem protoHandle_keeps_id {cfg : Cfg} {env : Env} {i : Nat} {ci ci' : ClientInfo} {t0 t : Tcb} {p : Bytes}
+    {r : Option Bytes} (hi : 1 ≤ i ∧ i ≤ 8)
+    (h : protoHandle cfg env i ci (some t0) p = .ok (ci', some t, r)) : t.protoId = t0.protoId := by
+  unfold protoHandle at h
+  repeat' split at h
+  all_goals (try dsimp only at h)
+  all_goals (repeat' split at h)
+  all_goals first
+    | (cases h; done)
+    | (simp only [Except.ok.injEq, Prod.mk.injEq, Option.some.injEq] at h; simp_all; done)
+    | (simp only [Except.ok.injEq, Prod.mk.injEq, Option.some.injEq] at h; obtain ⟨_, h2, _⟩ := h; subst h2; simp_all; done)
+    | (exfalso; simp only [PROTO_HTTP, PROTO_STUN, PROTO_SSH, PROTO_GHOST, PROTO_RPC_TCP, PROTO_RPC_UDP, PROTO_SMB1,
+        PROTO_SMB2] at *; omega)
+
+/-- the sticky protocol id a flow carries after its first segment (what the harness reads with its `P` op and
+    passes to the judges as `forced`) is the id the compiled matcher finds on that segment -/
+theorem sticky_id_of_first {cfg : Cfg} {env : Env} {ci ci' : ClientInfo} {t : Tcb} {p : Bytes} {r : Option Bytes}
+    (hg : Gate ci) (h : protoRepl cfg env ci (some {}) p = .ok (ci', some t, r)) :
+    t.protoId = (refStreamK2 p).getD PROTO_NONE := by
+  obtain ⟨st, hst⟩ := model_fresh cfg env ci p hg
+  rw [hst] at h
+  cases hid : refStreamK2 p with
+  | none =>
+    rw [hid] at h
+    simp only [Except.ok.injEq, Prod.mk.injEq, Option.some.injEq] at h
+    rw [← h.2.1]; rfl
+  | some i =>
+    rw [hid] at h
+    simp only at h
+    have hk := refDatagramK2_id p i (refDatagramK2_of_stream p i hid)
+    exact protoHandle_keeps_id ⟨hk.1, hk.2.1⟩ h
+
+theorem methods_heads : ∀ m ∈ httpMethods, 3 ≤ m.length ∧ m.take 2 ≠ [83, 83] ∧ m.take 2 ≠ [71, 104] ∧
+    m.head? ≠ some 0 := by decide +kernel
 
 /-! ### C17 -/
 
